@@ -7,6 +7,9 @@ git -C /repo apply "/verif/seeded/$name/patch.diff" || git -C /repo apply --3way
 git -C /repo reset -q
 ./check "$id" "$tier" > /tmp/try-$name-$id.log 2>&1; rc=$?
 git -C /repo checkout -- . ; git -C /repo clean -fdq -- pkg devpkg 2>/dev/null
+# the binaries under bin/ were built from the patched tree: rebuild the plain one from the restored tree
+# (the variant binaries are rebuilt by every ./check call anyway)
+( . /verif/env.sh; cd /verif/mc && go build -o ../bin/vcheck ./cmd/vcheck ) >/dev/null 2>&1
 echo "seed=$name check=$id tier=$tier exit=$rc  $(grep -c '^VIOLATION' /tmp/try-$name-$id.log) VIOLATION lines"
 grep -A1 '^VIOLATION' /tmp/try-$name-$id.log | head -4 | cut -c1-500
 tail -1 /tmp/try-$name-$id.log | cut -c1-300
